@@ -81,3 +81,27 @@ def reference(item) -> dict:
         return {"skip": True}
     return {"decompile": decompile_result(gen_ssb.build(c)), "ssbs": ssbs_result(gen_ssb.build(c)),
             "canon": json.loads(json.dumps(canon.canon_ops(gen_ssb.build(c)[1]), default=str))}
+
+
+def compile_result_nobudget(text: str) -> dict:
+    try:
+        c = compile_text(text)
+    except Exception as e:  # noqa
+        return describe_exc(e)
+    return {
+        "ops": json.loads(json.dumps(canon.canon_ops(c.routine_ops), default=str)),
+        "offsets": [[op.offset for op in r] for r in c.routine_ops],
+        "table": json.loads(json.dumps(model.real_routine_table(c.routine_infos, c.named_coroutines), default=str)),
+        "source_map": c.source_map.serialize(),
+    }
+
+
+def decompile_result_nobudget(built) -> dict:
+    from vf.cut import decompile
+
+    infos, rops, coros = built
+    try:
+        text, sm = decompile(infos, rops, coros)
+    except Exception as e:  # noqa
+        return describe_exc(e)
+    return {"text": text, "source_map": sm.serialize()}
